@@ -3,6 +3,7 @@ package c19
 import (
 	"bufio"
 	"bytes"
+	"crypto/tls"
 	"fmt"
 	"net"
 	"regexp"
@@ -36,6 +37,10 @@ type Case struct {
 	// RetentionOff runs the scanner with period 0 (disabled): Start returns at once and Join
 	// must still not block shutdown.
 	RetentionOff bool `json:"retention_off,omitempty"`
+	// TLS runs the SMTP listener with implicit TLS (ForceTLS); Abort[i] makes SMTP session i end
+	// with a TCP reset instead of finishing its dialogue.
+	TLS   bool   `json:"tls,omitempty"`
+	Abort []bool `json:"abort,omitempty"`
 }
 
 var prop = hx.Prop[Case]{
@@ -83,6 +88,10 @@ var prop = hx.Prop[Case]{
 		}
 		c.Order = rapid.Permutation(acts).Draw(t, "order")
 		c.RetentionOff = rapid.IntRange(0, 2).Draw(t, "retoff") == 0
+		c.TLS = rapid.IntRange(0, 3).Draw(t, "tls") == 0
+		for range c.Sessions {
+			c.Abort = append(c.Abort, rapid.IntRange(0, 4).Draw(t, "abort") == 0)
+		}
 		return c
 	},
 	Run: run,
@@ -158,6 +167,7 @@ func (g *logGate) reset() (blocked chan struct{}, release chan struct{}) {
 type client struct {
 	conn net.Conn
 	br   *bufio.Reader
+	raw  net.Conn // the TCP connection underneath (== conn without TLS)
 }
 
 func dial(addr string) (*client, error) {
@@ -169,6 +179,42 @@ func dial(addr string) (*client, error) {
 		gate.know(c.LocalAddr().String())
 	}
 	return &client{conn: c, br: bufio.NewReader(c)}, nil
+}
+
+// dialSMTP connects to the SMTP listener, through TLS when the listener is an implicit-TLS one.
+// With handshake=false the TLS handshake is left to the first read (a held session has not
+// started serving yet).
+func dialSMTP(addr string, useTLS, handshake bool) (*client, error) {
+	c, err := net.DialTimeout("tcp", addr, 2*time.Second)
+	if err != nil {
+		return nil, err
+	}
+	if !gate.armed.Load() {
+		gate.know(c.LocalAddr().String())
+	}
+	var conn net.Conn = c
+	if useTLS {
+		tc := tls.Client(c, &tls.Config{InsecureSkipVerify: true})
+		if handshake {
+			_ = tc.SetDeadline(time.Now().Add(5 * time.Second))
+			if err := tc.Handshake(); err != nil {
+				return nil, err
+			}
+			_ = tc.SetDeadline(time.Time{})
+		}
+		conn = tc
+	}
+	return &client{conn: conn, br: bufio.NewReader(conn), raw: c}, nil
+}
+
+// reset ends the connection with a TCP RST.
+func (c *client) reset() {
+	if tc, ok := c.raw.(*net.TCPConn); ok {
+		_ = tc.SetLinger(0)
+		_ = tc.Close()
+		return
+	}
+	_ = c.conn.Close()
 }
 
 func (c *client) line(d time.Duration) (string, error) {
@@ -207,6 +253,7 @@ func run(c Case) *hx.Outcome {
 	o := &hx.Outcome{}
 	cfg := hx.DefaultCfg()
 	cfg.Backend, cfg.NoHTTP = c.Backend, true
+	cfg.SMTPForceTLS = c.TLS
 	w, err := hx.NewWorld(cfg)
 	if err != nil {
 		o.Failf(pid+":harness", "world: %v", err)
@@ -308,7 +355,7 @@ func run(c Case) *hx.Outcome {
 		if s.State == "held" {
 			holdNext.Store(true)
 		}
-		cl, err := dial(smtpAddr)
+		cl, err := dialSMTP(smtpAddr, c.TLS, s.State != "held")
 		if err != nil {
 			fail("harness", "dial smtp: %v", err)
 			return o
@@ -347,11 +394,19 @@ func run(c Case) *hx.Outcome {
 		}
 	}
 
+	aborted := false
 	// finish completes session i's dialogue from its state
 	finish := func(i int) {
 		s, cl := c.Sessions[i], clients[i]
 		box := fmt.Sprintf("sess%d", i)
 		defer func() { _ = cl.conn.Close(); open[i] = false }()
+		if s.Proto == "smtp" && i < len(c.Abort) && c.Abort[i] && s.State != "held" {
+			// the client vanishes: TCP reset in whatever state the dialogue is; the session must end
+			// (and be accounted for by Drain) all the same
+			cl.reset()
+			aborted = true
+			return
+		}
 		if s.Proto == "pop3" && s.State == "pheld" {
 			if l, err := cl.line(hx.ReplyTimeout); err != nil || !strings.HasPrefix(l, "+OK") {
 				fail("session-cut", "held POP3 session %d: greeting %q (err %v)", i, l, err)
@@ -422,6 +477,7 @@ func run(c Case) *hx.Outcome {
 	}
 
 	cancelled := false
+	_ = aborted
 	var smtpDrained, pop3Drained atomic.Bool
 	smtpDrainCh, pop3DrainCh := make(chan struct{}), make(chan struct{})
 	drainStarted := map[string]bool{}
@@ -482,7 +538,13 @@ func run(c Case) *hx.Outcome {
 			if act == "connect-pop3" {
 				addr, greet = pop3Addr, "+OK"
 			}
-			cl, err := dial(addr)
+			var cl *client
+			var err error
+			if act == "connect-smtp" {
+				cl, err = dialSMTP(addr, c.TLS, !cancelled)
+			} else {
+				cl, err = dial(addr)
+			}
 			if !cancelled {
 				if err != nil {
 					fail("harness", "%s before cancel: %v", act, err)
@@ -535,6 +597,12 @@ func run(c Case) *hx.Outcome {
 	within(o, "drain-blocked", "smtp Drain returning after the last session ended", hx.ReplyTimeout, smtpDrainCh)
 	within(o, "drain-blocked", "pop3 Drain returning after the last session ended", hx.ReplyTimeout, pop3DrainCh)
 	o.NonTrivial = midTxn
+	if c.TLS {
+		o.Class("implicit-TLS SMTP listener")
+	}
+	if aborted {
+		o.Class("a session ended by TCP reset")
+	}
 	if heldIdx >= 0 {
 		o.Class("a session held at the accepted point (" + c.Sessions[heldIdx].Proto + ")")
 	}
